@@ -3,7 +3,7 @@ import ast
 import math
 
 from ..loader import AnalysisError, NotConst, attr_path, src, walk_no_nested_defs, norm_stmt, call_name
-from ..symx import SymX, classify, show, C, TRUE, FALSE, simp, is_const, is_term
+from ..symx import SymX, classify, show, C, TRUE, FALSE, simp, is_const, is_term, mentions
 from ..nf import SELF_NEXT, SF
 from . import kernels as K, shared
 
@@ -118,6 +118,62 @@ def r1_argsets(ctx, chk, rule="C04.1"):
         key = K.ROUND(SF(REACH), ("v", ps[1]))
         K.check_fold(chk, rule, k.func.where(), k.kfold(k.ret), "%s.%s" % (cls, meth), kind="ARGSET", sense=sense, term=key,
                      init_ok=init_ok, label=("p",), found_text=show(k.ret))
+
+
+def _dead_state_shortcut(ctx, f, sx, st, cond, entry_t):
+    """`if state is not final and state.idx not in <backward search result>: strategy = [all actions]`.
+    True: exactly that (a state from which no final state is reachable has value 0 and so has every successor: all actions tie);
+    False: the shortcut also covers final states (whose own value is 1 but whose successors can have any value) or lists
+    something else than all actions; None: not in this shape."""
+    conj = list(cond[1]) if cond[0] == "and" else [cond]
+    fin = [c for c in conj if c in (simp(("not", ("truthy", ("attr", st, "is_final_node")))), ("cmp", "==", ("attr", st, "is_final_node"), C(False)))]
+    reach_f, _final_f = shared.solver_search_fields(ctx)
+    outside = [c for c in conj if c[0] == "cmp" and c[1] == "notin" and c[2] in (("attr", st, "idx"),) and mentions(c[3], lambda x: x[0] == "v" and x[1] in f.params and x[1] != "self")]
+    by_field = [c for c in conj if c[0] == "cmp" and c[1] == "notin" and c[2] in (("attr", st, "idx"),)
+                and mentions(c[3], lambda x: x[0] == "attr" and x[1] == ("v", "self") and x[2] in reach_f)]
+    if not outside and not by_field:
+        return None
+    # the entry: every action label of the state, in order
+    all_actions = False
+    if entry_t[0] == "compr" and entry_t[1] in sx.loops:
+        Lc = sx.loops[entry_t[1]]
+        all_actions = Lc.source == ("attr", st, "next_states") and not Lc.filters and Lc.whole and Lc.elt == simp(("idx", ("elem", Lc.id), C(0)))
+    if not all_actions:
+        return None
+    if by_field and not outside:
+        others = [c for c in conj if c not in fin and c not in by_field and not (c[0] == "cmp" and c[1] in ("isnot", "!=") and c[3] == C(None))]
+        if others:
+            return None
+        return True if fin else False
+    # the parameter is the backward search's result at the (only) call site
+    par = [x[1] for x in _sub(outside[0][3]) if x[0] == "v" and x[1] in f.params and x[1] != "self"][0]
+    ok_site = False
+    for g in ctx.prog.all_funcs(("tad.py",)):
+        for call, cs in ctx.cg.call_sites(g):
+            if f in cs or any(c_.qual == f.qual for c_ in cs):
+                ps = [p_ for p_ in f.params if p_ != "self"]
+                arg = None
+                if par in ps and ps.index(par) < len(call.args):
+                    arg = call.args[ps.index(par)]
+                for k in call.keywords:
+                    if k.arg == par:
+                        arg = k.value
+                if arg is None:
+                    continue            # default None: the shortcut is off there
+                if isinstance(arg, ast.Name):
+                    defs = ctx.cfg(g).defs_reaching(ctx.cfg(g).stmt_of(call), arg.id)
+                    ok_site = len(defs) == 1 and isinstance(next(iter(defs)), ast.Assign) and isinstance(next(iter(defs)).value, ast.Call) \
+                        and call_name(next(iter(defs)).value) == "reverse_dfs"
+                    if not ok_site:
+                        return None
+                else:
+                    return None
+    if not ok_site:
+        return None
+    others = [c for c in conj if c not in fin and c not in outside and not (c[0] == "cmp" and c[1] in ("isnot", "!=") and c[3] == C(None))]
+    if others:
+        return None
+    return True if fin else False
 
 
 def r2_precision(ctx, chk, rule="C04.2"):
@@ -314,15 +370,32 @@ def role_table(ctx, chk, rule, q, best, worst):
                 owner, got[3][2], want[3][2]), expected=show(want), found=show(got)[:200], construct="%s wrong getter for %s" % (f.short, owner))
             return
     # a player state whose entry is, under some further condition, something else than what its node method returns
+    accepted = 0
     for owner, want in list(cases.items())[:2]:
         got = norm(poly(norm(deep_simp(subst(u, lambda x: C(owner) if x == pl else None))), owner))
         if got[0] == "ite" and want in (got[2], got[3]):
             other = got[3] if got[2] == want else got[2]
             if other[0] == "setitem" and other[1] == acc and other[3] != want[3] and not (other[3][0] == "mcall" and other[3][1] == st):
+                oc = got[1] if got[3] == want else simp(("not", got[1]))
+                lemma = _dead_state_shortcut(ctx, f, sx, st, oc, other[3])
+                if lemma is True:
+                    chk.ok(rule, f.where(L.node), "a non-final %s state outside the backward search's result lists all its actions directly: such a state and all its successors have value 0, "
+                           "so every action attains the optimum (the node method would return the same list)" % owner)
+                    accepted += 1
+                    continue
+                if lemma is None:
+                    chk.undecided(rule, f.where(L.node), "the entry of a %s state is `%s` under `%s`: whether that equals the node's optimal-action set there is not decided" % (
+                        owner, show(other[3])[:60], show(oc)[:100]))
+                    return
                 chk.violation(rule, f.where(L.node), "the entry of a %s state is `%s` instead of %s(...) when `%s`: the reported strategy is not the node's optimal-action set" % (
                     owner, show(other[3])[:80], want[3][2], show(got[1] if got[3] == want else simp(("not", got[1])))[:120]),
                     expected=show(want), found=show(got)[:200], construct="%s conditional entry" % f.short)
                 return
+    if accepted == 2:
+        rest = list(cases.items())[2:]
+        if all(norm(poly(norm(deep_simp(subst(u, lambda x: C(o_) if x == pl else None))), o_)) == w_ for o_, w_ in rest) and not any(t == pl for t in _sub(init)):
+            chk.ok(rule, f.where(L.node), "otherwise Player 1 -> %s, Player 2 -> %s, any other owner -> None; stored at state.idx; whole state list" % (best, worst))
+            return
     # diagnose: which part differs
     calls = [t for t in _sub(u) if t[0] == "mcall" and t[2] in (best, worst)]
     conds = [t for t in _sub(u) if t[0] == "cmp" and t[1] == "=="]
@@ -408,7 +481,8 @@ def next_states_writers(ctx):
             if shared.is_fresh_local(ctx, e.func, e.node, e.recv_expr):
                 continue
             ws.add(e.func)
-    return ws
+    rest = {g_.qual for g_ in shared.restorers(ctx)}
+    return {w for w in ws if w.qual not in rest}        # (a `reset` that restores the constructor's list rewrites nothing)
 
 
 def r4_before_pruning(ctx, chk, rule="C04.4"):
